@@ -1,0 +1,211 @@
+//go:build verif
+
+// Package vhook holds the verification hooks of /verif (build tag "verif").
+//
+// With the tag on, the hooks trace, delay or gate the stage boundaries of the
+// reader -> worker -> writer pipelines so that schedules other than the usual
+// one can be observed and imposed.  Nothing here changes what a stage computes.
+//
+// Environment (read once, at the first hook call, unless Configure was called):
+//
+//	VHOOK_TRACE=<file>     append one JSON line per event {"k":ticket,"ev":"ready|recv","site":..,"idx":..}
+//	VHOOK_JITTER=<seed>    Ready sleeps / yields pseudo-randomly (a function of seed, site, idx)
+//	VHOOK_GATE=<site>:<i,j,k,...>   impose a delivery order: Ready(<site>, x) returns only when every
+//	                       index listed before x has been seen by Recv (any site); gives up after VHOOK_GATE_MS
+package vhook
+
+import (
+	"fmt"
+	"hash/fnv"
+	"os"
+	"runtime"
+	"strconv"
+	"strings"
+	"sync"
+	"time"
+)
+
+// Event is one hook firing; K is a global ticket taken under the hook's lock.
+type Event struct {
+	K    int    `json:"k"`
+	Ev   string `json:"ev"`
+	Site string `json:"site"`
+	Idx  int    `json:"idx"`
+}
+
+// Config selects what the hooks do.
+type Config struct {
+	Trace     bool   // keep events in memory (Events)
+	TraceFile string // also append them to this file
+	Jitter    int64  // 0 = off
+	GateSite  string // "" = off
+	GateOrder []int
+	GateRecv  string // Recv site whose deliveries release the gate ("" = any)
+	GateWait  time.Duration
+}
+
+var (
+	mu         sync.Mutex
+	cond       = sync.NewCond(&mu)
+	configured bool
+	cfg        Config
+	events     []Event
+	ticket     int
+	recvd      map[int]bool
+	maxRecv    map[string]int
+	reordered  int
+	unrealised int
+	gatePos    map[int]int
+	traceOut   *os.File
+)
+
+// Configure (re)initialises the hooks; the harness calls it before every run.
+func Configure(c Config) {
+	mu.Lock()
+	defer mu.Unlock()
+	configureLocked(c)
+}
+
+func configureLocked(c Config) {
+	cfg = c
+	configured = true
+	events = nil
+	ticket = 0
+	recvd = map[int]bool{}
+	maxRecv = map[string]int{}
+	reordered = 0
+	unrealised = 0
+	gatePos = map[int]int{}
+	for p, i := range c.GateOrder {
+		gatePos[i] = p
+	}
+	if cfg.GateWait == 0 {
+		cfg.GateWait = 3 * time.Second
+	}
+	if traceOut != nil {
+		traceOut.Close()
+		traceOut = nil
+	}
+	if c.TraceFile != "" {
+		traceOut, _ = os.OpenFile(c.TraceFile, os.O_APPEND|os.O_CREATE|os.O_WRONLY, 0644)
+	}
+	cond.Broadcast()
+}
+
+func fromEnv() {
+	c := Config{}
+	if f := os.Getenv("VHOOK_TRACE"); f != "" {
+		c.TraceFile = f
+	}
+	if s := os.Getenv("VHOOK_JITTER"); s != "" {
+		c.Jitter, _ = strconv.ParseInt(s, 10, 64)
+	}
+	if g := os.Getenv("VHOOK_GATE"); g != "" {
+		parts := strings.SplitN(g, ":", 2)
+		if len(parts) == 2 {
+			c.GateSite = parts[0]
+			for _, x := range strings.Split(parts[1], ",") {
+				if v, err := strconv.Atoi(strings.TrimSpace(x)); err == nil {
+					c.GateOrder = append(c.GateOrder, v)
+				}
+			}
+		}
+	}
+	c.GateRecv = os.Getenv("VHOOK_GATE_RECV")
+	if s := os.Getenv("VHOOK_GATE_MS"); s != "" {
+		if v, err := strconv.Atoi(s); err == nil {
+			c.GateWait = time.Duration(v) * time.Millisecond
+		}
+	}
+	configureLocked(c)
+}
+
+func logLocked(ev, site string, idx int) {
+	ticket++
+	e := Event{K: ticket, Ev: ev, Site: site, Idx: idx}
+	if cfg.Trace {
+		events = append(events, e)
+	}
+	if traceOut != nil {
+		fmt.Fprintf(traceOut, "{\"k\":%d,\"ev\":%q,\"site\":%q,\"idx\":%d}\n", e.K, e.Ev, e.Site, e.Idx)
+	}
+}
+
+// Ready is called by a pipeline worker immediately before it sends record idx downstream.
+func Ready(site string, idx int) {
+	mu.Lock()
+	if !configured {
+		fromEnv()
+	}
+	jitter := cfg.Jitter
+	if cfg.GateSite == site {
+		if pos, ok := gatePos[idx]; ok {
+			deadline := time.Now().Add(cfg.GateWait)
+			timer := time.AfterFunc(cfg.GateWait, func() { mu.Lock(); cond.Broadcast(); mu.Unlock() })
+			for !allRecvdBefore(pos) {
+				if time.Now().After(deadline) {
+					unrealised++
+					break
+				}
+				cond.Wait()
+			}
+			timer.Stop()
+		}
+	}
+	logLocked("ready", site, idx)
+	mu.Unlock()
+	if jitter != 0 {
+		h := fnv.New64a()
+		fmt.Fprintf(h, "%d/%s/%d", jitter, site, idx)
+		switch v := h.Sum64(); v % 4 {
+		case 0:
+		case 1:
+			runtime.Gosched()
+		default:
+			time.Sleep(time.Duration(20+v%400) * time.Microsecond)
+		}
+	}
+}
+
+func allRecvdBefore(pos int) bool {
+	for p := 0; p < pos; p++ {
+		if !recvd[cfg.GateOrder[p]] {
+			return false
+		}
+	}
+	return true
+}
+
+// Recv is called by a pipeline consumer immediately after it has received record idx.
+func Recv(site string, idx int) {
+	mu.Lock()
+	if !configured {
+		fromEnv()
+	}
+	if m, ok := maxRecv[site]; ok && idx < m {
+		reordered++
+	}
+	if m, ok := maxRecv[site]; !ok || idx > m {
+		maxRecv[site] = idx
+	}
+	if cfg.GateRecv == "" || cfg.GateRecv == site {
+		recvd[idx] = true
+	}
+	logLocked("recv", site, idx)
+	cond.Broadcast()
+	mu.Unlock()
+}
+
+// Events returns a copy of the events traced since the last Configure.
+func Events() []Event {
+	mu.Lock()
+	defer mu.Unlock()
+	return append([]Event(nil), events...)
+}
+
+// Stats reports (records delivered out of input order, gated records released by timeout).
+func Stats() (int, int) {
+	mu.Lock()
+	defer mu.Unlock()
+	return reordered, unrealised
+}
